@@ -27,8 +27,8 @@ def IntBuf.push (b : IntBuf) (e : Int) : IntBuf :=
     min := if e ≤ b.min then e else b.min          -- cmp::min(elem, self.min)
     max := if b.max ≤ e then e else b.max          -- cmp::max(elem, self.max)
     increasing := if e > b.last then b.increasing + 1 else b.increasing
-    allowDelta := if e > b.last then b.allowDelta
-                  else if inI64 (e - b.last) then b.allowDelta else false   -- checked_sub(..).is_none()
+    -- `if !self.data.is_empty() && elem.checked_sub(self.last).is_none() { allow_delta_encode = false }`
+    allowDelta := if b.data ≠ [] ∧ ¬ inI64 (e - b.last) then false else b.allowDelta
     last := e }
 
 def IntBuf.pushAll (b : IntBuf) (es : List Int) : IntBuf := es.foldl IntBuf.push b
@@ -52,9 +52,9 @@ def deltaRange (mn mx : Int) : List Int → Int × Int
   | d :: ds => deltaRange (if mn > d then d else mn) (if mx < d then d else mx) ds
 
 /-- `interval`:
-    `if min < 0 && max > 0 { max as u64 + (-(min as i128)) as u64 } else { (max - min) as u64 }` -/
+    `if min < 0 && max >= 0 { max as u64 + (-(min as i128)) as u64 } else { (max - min) as u64 }` -/
 def interval (mn mx : Int) : Except Fault Nat :=
-  if mn < 0 ∧ mx > 0 then
+  if mn < 0 ∧ mx ≥ 0 then
     (if mx.toNat + (-mn).toNat ≤ U64_MAX then .ok (mx.toNat + (-mn).toNat) else .error .overflow)
   else do
     let d ← subI64 mx mn
